@@ -868,8 +868,9 @@ class Interp:
             return getattr(receiver, name)(*args, **kwargs)
         except Undecided:
             raise
-        except (ValueError, KeyError, IndexError, TypeError, AttributeError) as error:
-            self.raise_("builtins." + type(error).__name__, str(error))
+        except (ValueError, LookupError, TypeError, AttributeError) as error:
+            name = type(error).__name__ if type(error).__module__ == "builtins" else "ValueError"
+            self.raise_("builtins." + name, str(error))
 
     def dict_get(self, mapping, key, default=None):
         self._check_hashable(key)
